@@ -83,7 +83,11 @@ func fnCmd(args []string) {
 			}
 		}
 		t1 := time.Now()
-		solveAll(res.cx, obls, solveOpts{timeout: *timeout, seed: 1, par: 6, workDir: work, keep: *keep})
+		cxOf := map[*Obligation]*Ctx{}
+		for _, o := range obls {
+			cxOf[o] = res.cx
+		}
+		solveMany(cxOf, obls, solveOpts{timeout: *timeout, seed: 1, par: 8, workDir: work, keep: *keep})
 		fmt.Printf("== %s  mode=%s  obligations=%d  gen=%.2fs solve=%.2fs\n", res.Name, res.Mode, len(obls), gen.Seconds(), time.Since(t1).Seconds())
 		for _, u := range res.Unsupported {
 			fmt.Printf("   UNSUPPORTED: %s\n", u)
@@ -141,36 +145,48 @@ func flattenAnd(t string) []string {
 	return []string{t}
 }
 
-func explainObl(cx *Ctx, o *Obligation, work string) {
-	goal := o.Goal.S
-	// peel implications: (=> a b) -> assume a, prove b
-	var hyps []string
-	for {
-		p := splitSexp(goal)
-		if len(p) == 3 && p[0] == "=>" {
-			hyps = append(hyps, p[1])
-			goal = p[2]
-			continue
-		}
-		break
+type leafGoal struct {
+	hyps []string
+	goal string
+}
+
+// leaves decomposes a goal into (hypotheses => atomic goal) leaves through
+// conjunctions and implications.
+func leaves(hyps []string, g string, out *[]leafGoal) {
+	p := splitSexp(g)
+	if len(p) == 3 && p[0] == "=>" {
+		leaves(append(append([]string{}, hyps...), p[1]), p[2], out)
+		return
 	}
-	for i, c := range flattenAnd(goal) {
-		g := c
-		for j := len(hyps) - 1; j >= 0; j-- {
-			g = "(=> " + hyps[j] + " " + g + ")"
+	if len(p) > 1 && p[0] == "and" {
+		for _, c := range p[1:] {
+			leaves(hyps, c, out)
+		}
+		return
+	}
+	*out = append(*out, leafGoal{hyps, g})
+}
+
+func explainObl(cx *Ctx, o *Obligation, work string) {
+	var ls []leafGoal
+	leaves(nil, o.Goal.S, &ls)
+	for i, l := range ls {
+		g := l.goal
+		for j := len(l.hyps) - 1; j >= 0; j-- {
+			g = "(=> " + l.hyps[j] + " " + g + ")"
 		}
 		o2 := *o
 		o2.Goal = Term{g, SBool}
 		script := cx.script(&o2)
 		file := filepath.Join(work, fmt.Sprintf("explain-%d.smt2", i))
 		os.WriteFile(file, []byte(script), 0o644)
-		r, _ := solve(file, 10*time.Second, 1, false)
+		r, _ := solve(file, 8*time.Second, 1, false)
 		if r.status != "unsat" {
-			txt := c
-			if len(txt) > 300 {
-				txt = txt[:300] + "..."
+			txt := l.goal
+			if len(txt) > 400 {
+				txt = txt[:400] + "..."
 			}
-			fmt.Printf("        conjunct %d: %s: %s\n", i, r.status, txt)
+			fmt.Printf("        leaf %d (under %d hyps): %s: %s\n", i, len(l.hyps), r.status, txt)
 		}
 	}
 }
